@@ -162,3 +162,76 @@ def decisionsFor (src : String) (s : Sys) : List Event → List Out
     else decisionsFor src (step s e).1 t
 
 end ConnLimit
+
+/-!
+## Rejections in progress
+
+`ServeHTTP` answers a failed `acquire` by calling `cl.errHandler.ServeHTTP(w, r, err)` and returns
+when that handler returns.  With the default handler this is immediate (`Out.rejected` above).  When
+the configured `ErrorHandler` is slow (it logs, dumps the request, or the client reads slowly) the
+request stays *inside the error handler* for a while: it is `rejecting`.  In the code a failed
+`acquire` has touched nothing and no `release` is pending, so a rejection in progress holds no slot:
+the layer below only remembers which ids are parked there; the limiter state `base` moves exactly as
+in `step`.  `slow` is the environment's choice (does the error handler park?), not limiter state.
+-/
+namespace ConnLimit
+
+/-- a request parked inside the error handler after a failed `acquire` -/
+structure Rej where
+  id : String
+  src : String
+deriving Repr, DecidableEq
+
+inductive OutR where
+  | base (o : Out)
+  | rejecting           -- `MaxConnError`, now inside the (slow) error handler
+  | rejectedDone        -- the error handler returned: 429 written
+deriving Repr, DecidableEq
+
+structure SysR where
+  base : Sys
+  slow : Bool
+  rejecting : List Rej
+deriving Repr, DecidableEq
+
+def SysR.init (max : Int) (slow : Bool) : SysR := ⟨Sys.init max, slow, []⟩
+
+def findRej : List Rej → String → Option Rej
+  | [], _ => none
+  | r :: t, id => if r.id = id then some r else findRej t id
+
+def dropRej : List Rej → String → List Rej
+  | [], _ => []
+  | r :: t, id => if r.id = id then t else r :: dropRej t id
+
+def stepR (s : SysR) : Event → SysR × OutR
+  | .start id src amount =>
+    match findRej s.rejecting id with
+    | some _ => (s, .base .dup)        -- protocol misuse: the id is still being rejected
+    | none =>
+      let r := step s.base (.start id src amount)
+      if s.slow = true ∧ r.2 = .rejected then
+        ({ s with base := r.1, rejecting := s.rejecting ++ [⟨id, src⟩] }, .rejecting)
+      else ({ s with base := r.1 }, .base r.2)
+  | .startErr id => ({ s with base := (step s.base (.startErr id)).1 }, .base (step s.base (.startErr id)).2)
+  | .finish id how =>
+    match findRej s.rejecting id with
+    | some _ => ({ s with rejecting := dropRej s.rejecting id }, .rejectedDone)
+    | none =>
+      let r := step s.base (.finish id how)
+      ({ s with base := r.1 }, .base r.2)
+
+def runR (s : SysR) : List Event → SysR
+  | [] => s
+  | e :: t => runR (stepR s e).1 t
+
+def outsR (s : SysR) : List Event → List OutR
+  | [] => []
+  | e :: t => (stepR s e).2 :: outsR (stepR s e).1 t
+
+/-- a burst of `n` arrivals of one source with ids `pre0 … pre(n-1)`: as atomic steps in id order
+    (all arrivals carry the same source and amount, so every order gives the same counts) -/
+def burstEvents (pre src : String) (amount : Int) (n : Nat) : List Event :=
+  (List.range n).map fun i => .start (pre ++ toString i) src amount
+
+end ConnLimit
